@@ -1,6 +1,7 @@
 # -*- coding: utf-8 -*-
 
 import os
+import re
 import time
 import socket
 import hashlib
@@ -13,6 +14,15 @@ from werkzeug.utils import redirect
 # compat
 from boltons.strutils import bytes2human
 from boltons.timeutils import relative_time as rel_datetime
+
+
+_CTL_CHAR_RE = re.compile('[\x00-\x1f\x7f]')
+
+
+def quote_ctl_chars(text):
+    """Percent-encodes the control characters in *text*. They are legal
+    in a (decoded) URL path, but not in a header value."""
+    return _CTL_CHAR_RE.sub(lambda m: '%%%02X' % ord(m.group(0)), text)
 
 
 class Redirector(object):
